@@ -515,6 +515,8 @@ pub fn fixed_docs() -> Vec<(&'static str, String)> {
         ("bom", "\u{feff}local x = 1\n".to_string()),
         ("nul", "local a = 1\0 local b = 2\n".to_string()),
         ("color", "local c = \"#ff00ff\"\nlocal d = \"ff0000\"\n".to_string()),
+        ("require-completion", "local u = require(\"lib.\")\nlocal p = require(\"\")\nlocal q = require(\"li\")\nlocal f = \"./lib/\"\n".to_string()),
+        ("member-completion", "---@class Pt\n---@field x number\n---@field [\"a b\"] number\nlocal pt = {}\nfunction pt:move() end\nlocal n = pt.\nlocal m = pt:\npt.x.\nlocal arr = {}\narr.\n".to_string()),
         ("signature", "---@param a number\n---@param b string\nlocal function sig(a, b) end\nsig(1, \nsig(\n".to_string()),
     ]
 }
